@@ -9,7 +9,7 @@ use super::address;
 use crate::protocol::address::Address;
 
 pub trait Socks5Message: Send + Sync {
-    fn encode(&mut self, dst: &mut BytesMut);
+    fn encode(&mut self, dst: &mut BytesMut) -> anyhow::Result<()>;
 }
 
 pub struct Socks5InitialRequest {
@@ -22,12 +22,13 @@ impl Socks5InitialRequest {
     }
 }
 impl Socks5Message for Socks5InitialRequest {
-    fn encode(&mut self, dst: &mut BytesMut) {
+    fn encode(&mut self, dst: &mut BytesMut) -> anyhow::Result<()> {
         dst.put_u8(VERSION);
         dst.put_u8(self.auth_methods.len() as u8);
         for auth_method in self.auth_methods.iter() {
             dst.put_u8(*auth_method as u8);
         }
+        Ok(())
     }
 }
 
@@ -42,9 +43,10 @@ impl Socks5InitialResponse {
 }
 
 impl Socks5Message for Socks5InitialResponse {
-    fn encode(&mut self, dst: &mut BytesMut) {
+    fn encode(&mut self, dst: &mut BytesMut) -> anyhow::Result<()> {
         dst.put_u8(VERSION);
         dst.put_u8(self.auth_method as u8);
+        Ok(())
     }
 }
 
@@ -61,11 +63,11 @@ impl Socks5CommandRequest {
 }
 
 impl Socks5Message for Socks5CommandRequest {
-    fn encode(&mut self, dst: &mut BytesMut) {
+    fn encode(&mut self, dst: &mut BytesMut) -> anyhow::Result<()> {
         dst.put_u8(VERSION);
         dst.put_u8(self.command_type as u8);
         dst.put_u8(0);
-        address::encode(&self.dst_addr, dst);
+        address::encode(&self.dst_addr, dst)
     }
 }
 
@@ -75,11 +77,11 @@ pub struct Socks5CommandResponse {
 }
 
 impl Socks5Message for Socks5CommandResponse {
-    fn encode(&mut self, dst: &mut BytesMut) {
+    fn encode(&mut self, dst: &mut BytesMut) -> anyhow::Result<()> {
         dst.put_u8(VERSION);
         dst.put_u8(self.command_status as u8);
         dst.put_u8(0x00);
-        address::encode(&self.bnd_addr, dst);
+        address::encode(&self.bnd_addr, dst)
     }
 }
 
